@@ -96,12 +96,10 @@ Definition link_skel (old : entry) (path : nat) : entry :=
   | e => e                                                   (* EEXIST: "Retaining local" / "already here" *)
   end.
 
-(* the entry after the run, and (for a link) the bytes that were written to the file it points to *)
-Definition write_inplace (old : entry) (new : list A) : entry * option (list A) :=
-  match old with
-  | Link t => (Link t, Some new)
-  | _ => (Reg new, None)
-  end.
+(* the four files rewritten in place (asn1c_open_file without a temporary name): an existing regular file is truncated and
+   rewritten, a symbolic link under the name is unlinked and a regular file is created in its place; nothing is ever written to
+   the file a link points to (second component: always None) *)
+Definition write_inplace (old : entry) (new : list A) : entry * option (list A) := (Reg new, None).
 
 (* what a run into an empty directory leaves at the path *)
 Definition fresh_type (new : list A) : entry := Reg new.
@@ -130,9 +128,6 @@ Definition apply_op (d : dir) (pw : nat * wop) : dir :=
 
 Definition run_dir (d : dir) (outs : list (nat * wop)) : dir := fold_left apply_op outs d.
 
-(* no symbolic link sits where a file is rewritten in place *)
-Definition nolink (d : dir) (outs : list (nat * wop)) : Prop :=
-  forall p n t, In (p, WInplace n) outs -> d p <> Link t.
 End Files.
 
 (* instance for the front end: bytes as N *)
